@@ -47,6 +47,12 @@ class SchedLock:
             self.owner = 'outside'
             return True
         exe.point(i, ('lock-acquire', 0))
+        if not blocking:
+            # try-lock: answers at once
+            if self.owner is not None:
+                return False
+            self.owner = i
+            return True
         while self.owner is not None:
             exe.block(i, self)
         self.owner = i
